@@ -66,6 +66,17 @@ class C15:
         las = ctx.summ.of_func(IO, "load_audio")
         b, _, _, _ = bind_args(la[0].term, las.params)
         off, smp = b.get("offset"), b.get("samples")
+        # every return path hands back the array built from that read (no shortcut that answers from something else)
+        data_t = ("sub", la[0].term, ("const", 0))
+        for r in s.returns:
+            reads = any(x == data_t or x == la[0].term for x in walk(r.term))
+            if not reads or any(c for c in conjuncts(la[0].live) if c not in conjuncts(r.live)):
+                ctx.bad("R15.1", file, "load_clip", f"return {show(r.term)[:60]} under {show(r.live)[:60]}",
+                        f"load_clip has a return path that does not hand back the frames read at the snapped offset "
+                        f"(`{show(r.term)[:80]}` when `{show(r.live)[:80]}`): on that path the length / zero fill / time axis of the "
+                        f"clip are whatever the shortcut produces", r.lineno)
+            elif len(s.returns) > 1 or r.live != la[0].live:
+                pass
         ok = True
         for name, term, want in (("offset", off, ("bin", "*", st, sr)), ("samples", smp, ("bin", "*", ("bin", "-", en, st), sr))):
             f = floor_of(term) if term is not None else None
